@@ -129,6 +129,11 @@ fn generate(seed: u64, tier: Tier, em: &mut Emitter) {
             emit_prog(em, &src, &steps, Mode::Par(parts), true, &["sweep", "many_partitions"]);
         }
     }
+    // fan-in trees of up to 13 rounds (> 256 effective partitions with fan-out 0 / 1 / 2, > 6561
+    // with fan-out 3), main chain and both join sides
+    for (src, steps, parts) in deep_fanin_cases(tier != Tier::Quick) {
+        emit_prog(em, &src, &steps, Mode::Par(parts), true, &["sweep", "deep_fanin"]);
+    }
     let mut rng = seed_mix(seed, 0xC05_0002);
     let count = if tier == Tier::Quick { 500 } else { 7000 };
     // big inputs: combines over 65 535 .. 70 001 rows, one partition over 4096 rows through the
